@@ -45,6 +45,8 @@ func StoreErrClass(err error) string {
 			return "enametoolong"
 		case syscall.EINVAL:
 			return "einval"
+		case syscall.EXDEV:
+			return "exdev"
 		case syscall.EIO:
 			return "eio"
 		case syscall.ENOSPC:
@@ -81,36 +83,71 @@ func ListTree(root string) string {
 		basePrefix += Hex(d)
 	}
 	var ents []string
-	filepath.Walk(root, func(p string, fi os.FileInfo, err error) error {
-		if err != nil || p == root {
-			return nil
+	// symbolic links are followed (a staging directory may be a link into another file system)
+	var rec func(abs string, comps []string)
+	rec = func(abs string, comps []string) {
+		des, err := os.ReadDir(abs)
+		if err != nil {
+			return
 		}
-		rel, _ := filepath.Rel(root, p)
-		comps := strings.Split(rel, "/")
-		hx := make([]string, len(comps))
-		for i, c := range comps {
-			hx[i] = Hex(c)
+		for _, de := range des {
+			p := filepath.Join(abs, de.Name())
+			fi, err := os.Stat(p)
+			if err != nil {
+				continue
+			}
+			cs := append(append([]string{}, comps...), de.Name())
+			hx := make([]string, len(cs))
+			for i, c := range cs {
+				hx[i] = Hex(c)
+			}
+			n := len(cs)
+			if !fi.IsDir() && n >= 2 && cs[n-2] == ".temp" && stagingName.MatchString(cs[n-1]) {
+				hx[n-1] = "*"
+			}
+			ps := strings.Join(hx, "/")
+			if ps == basePrefix {
+				ps = "B"
+			} else if strings.HasPrefix(ps, basePrefix+"/") {
+				ps = "B" + ps[len(basePrefix):]
+			}
+			if fi.IsDir() {
+				ents = append(ents, "d:"+ps)
+				rec(p, cs)
+			} else {
+				b, _ := os.ReadFile(p)
+				ents = append(ents, "f:"+ps+"="+Hex(string(b)))
+			}
 		}
-		n := len(comps)
-		if !fi.IsDir() && n >= 2 && comps[n-2] == ".temp" && stagingName.MatchString(comps[n-1]) {
-			hx[n-1] = "*"
-		}
-		ps := strings.Join(hx, "/")
-		if ps == basePrefix {
-			ps = "B"
-		} else if strings.HasPrefix(ps, basePrefix+"/") {
-			ps = "B" + ps[len(basePrefix):]
-		}
-		if fi.IsDir() {
-			ents = append(ents, "d:"+ps)
-		} else {
-			b, _ := os.ReadFile(p)
-			ents = append(ents, "f:"+ps+"="+Hex(string(b)))
-		}
-		return nil
-	})
+	}
+	rec(root, nil)
 	sort.Strings(ents)
 	return strings.Join(ents, ",")
+}
+
+// SecondFs returns a writable directory on a file system other than the one of dir, or "".
+func SecondFs(dir string) string {
+	st, err := os.Stat(dir)
+	if err != nil {
+		return ""
+	}
+	here, ok := st.Sys().(*syscall.Stat_t)
+	if !ok {
+		return ""
+	}
+	for _, cand := range []string{"/dev/shm", "/run/shm", os.TempDir()} {
+		cs, err := os.Stat(cand)
+		if err != nil || !cs.IsDir() {
+			continue
+		}
+		if there, ok := cs.Sys().(*syscall.Stat_t); ok && there.Dev != here.Dev {
+			if d, err := os.MkdirTemp(cand, "verifprobe"); err == nil {
+				os.Remove(d)
+				return cand
+			}
+		}
+	}
+	return ""
 }
 
 // SandboxDepth directories lie between the fresh parent and the store's base directory, so that
